@@ -23,7 +23,7 @@ RULE = ("cycles of 1..8 elements (durations 1..50, also 1, 10^6), offsets 0..200
 ASSUME = ["Python/numpy integer arithmetic is exact (model over Z)"]
 ROUTES = ["ctor", "setter", "deepcopy", "pickle", "kw_order"]
 # how the cycle itself comes into being (all before the first query; staleness after a query is C11)
-CYCLE_ROUTES = ["ctor", "ctor", "offset_setter", "elements_setter", "both_setters", "copy"]
+CYCLE_ROUTES = ["ctor", "ctor", "offset_setter", "elements_setter", "both_setters", "copy", "sibling"]
 
 
 def gen(rng, n):
@@ -80,6 +80,13 @@ def build(c):
         cyc = TrafficLightCycle(els, time_offset=c["o"])
     if cr == "copy":
         cyc = copy.deepcopy(cyc)
+    if cr == "sibling":
+        # the same phases with another offset, the way it is usually made: a shallow copy of a cycle that has already
+        # answered a query, then the offset assigned on the copy; the original keeps its offset and its answers
+        cyc.get_state_at_time_step(0)
+        sib = copy.copy(cyc)
+        sib.time_offset = c["o"] + 1 + sum(d for _, d in c["els"]) // 2
+        sib.get_state_at_time_step(3)
     pos = np.array([1.0, 2.0])
     r = c["route"]
     if r == "setter":
